@@ -338,6 +338,21 @@ func (e *Enc) noteCall(name string, results []Val) {
 			e.heap0[k] = e.fresh("last0", results[0].T.Sort)
 		}
 	}
+	// further results: lastresult("callee", i)
+	for i := 1; i < len(results); i++ {
+		if results[i].T.S == "" || results[i].Tuple != nil || results[i].Addr != nil {
+			continue
+		}
+		k := fmt.Sprintf("lastn|%s|%d|%s", name, i, results[i].T.Sort)
+		e.cur.heap[k] = results[i].T
+		if _, ok := e.heap0[k]; !ok {
+			e.heap0[k] = e.fresh("lastn0", results[i].T.Sort)
+		}
+		if e.lastTyp == nil {
+			e.lastTyp = map[string]types.Type{}
+		}
+		e.lastTyp[fmt.Sprintf("%s|%d", name, i)] = results[i].Typ
+	}
 	if e.p.Contracts.Counted[name] {
 		ck := "cnt|" + name
 		if _, ok := e.heap0[ck]; !ok {
@@ -454,6 +469,7 @@ func (e *Enc) encodeCall1(c *ssa.CallCommon, instr ssa.Instruction, pos token.Po
 	}
 	if kind == "extern" && fn != nil && len(args) > 0 {
 		e.externMutationObligation(name, fn, args[0], c.Args[0], pos)
+		e.sortedMemoryObligation(name, c.Args[0], pos)
 	}
 	// precise models of a few library functions
 	if kind == "extern" {
@@ -1631,6 +1647,8 @@ func (e *Enc) loopHeader(b *ssa.BasicBlock, li *loopInfo, preds []*ssa.BasicBloc
 				continue
 			}
 			switch parts[0] {
+			case "lastn":
+				e.cur.heap[k] = e.fresh("lastn_loop", e.heapGet(e.cur, k).Sort)
 			case "larg":
 				e.cur.heap[k] = e.fresh("larg_loop", e.heapGet(e.cur, k).Sort)
 			case "last":
@@ -2741,6 +2759,43 @@ func (e *Enc) externMutationObligation(name string, fn *ssa.Function, recv Val, 
 		goalFresh = Or(goalFresh, Ge(Birth(loaded), e.now0), App(SBool, "perexec", loaded))
 	}
 	e.oblige("frame", "extern-mutation/"+name, pos, goalFresh, []string{"C04", "C05"}, "receiver of mutating library method "+name+" lives in a compiled node: it must be fresh or per-execution memory")
+}
+
+// sortedMemoryObligation: the sort package rearranges the memory it is given. In execution code that memory
+// must have been made by the running function (or be nil): a `sorted` loop does not reorder the caller's list.
+func (e *Enc) sortedMemoryObligation(name string, arg ssa.Value, pos token.Pos) {
+	switch name {
+	case "sort.Sort", "sort.Stable", "sort.Slice", "sort.SliceStable", "sort.Strings", "sort.Ints", "sort.Float64s":
+	default:
+		return
+	}
+	if !e.frameOn() {
+		return
+	}
+	goal, what := e.sortedMemoryFresh(arg, 0)
+	e.oblige("frame", "extern-mutation/"+name, pos, goal, []string{"C04", "C05", "C12"}, name+" rearranges "+what+": it must be memory made by this activation (or nil), not data of the caller or of a compiled node")
+}
+
+func (e *Enc) sortedMemoryFresh(v ssa.Value, depth int) (Term, string) {
+	if depth > 4 {
+		return False, "memory the engine cannot trace"
+	}
+	switch x := v.(type) {
+	case *ssa.MakeInterface:
+		return e.sortedMemoryFresh(x.X, depth+1)
+	case *ssa.ChangeType:
+		return e.sortedMemoryFresh(x.X, depth+1)
+	case *ssa.Call:
+		if n, _, _ := e.calleeName(x.Common()); n == "sort.Reverse" && len(x.Common().Args) == 1 {
+			return e.sortedMemoryFresh(x.Common().Args[0], depth+1)
+		}
+	}
+	if _, ok := v.Type().Underlying().(*types.Slice); ok {
+		t := e.termOf(v)
+		arr := SliceArr(t)
+		return Or(Eq(arr, IntLit(0)), Ge(Birth(arr), e.now0)), "the backing array of " + v.Name()
+	}
+	return False, "memory the engine cannot trace (" + v.Type().String() + ")"
 }
 
 // sharedOrigin: does the value come from a package-level variable or out of a shared library container?
